@@ -65,7 +65,7 @@ MustSucceed   == {"seed", "wrongXslNamespaceInner", "numberLiteral", "numberForm
 DeepClasses   == {"deepDocument", "deepTemplateBody", "deepParens", "deepPredicates", "deepSteps"}
 (* the Recommendation leaves the outcome open (XSLT 16.1: unsupported output encoding "may signal an error"; *)
 (* characters outside the XML Char production inside an XPath expression; bytes produced by the fuzzer)     *)
-Open          == {"unknownOutputEncoding", "xpathIllegalChar", "fuzz"}
+Open          == {"unknownOutputEncoding", "xpathIllegalChar", "fuzz", "xmlDeclVersion"}
 
 Classes == NotWellFormed \cup NotValid \cup MustSucceed \cup DeepClasses \cup Open
 
